@@ -453,7 +453,8 @@ DecDop(d, ds, bit) ==
            LET d0 == [ds EXCEPT !.org = ds.cur, !.cur = ds.cur + d.cbp]
                c == DecAtomic(d.cdct, d0, d.cbit)
            IN IF c.ds.err \/ c.v.t # "int" \/ c.v.v < 0 THEN R(DErr(c.ds), Missing)
-              ELSE LET r == DecN(d.st, c.v.v, [c.ds EXCEPT !.cur = d0.org + d.off], <<>>) IN
+              ELSE LET pos == d0.org + d.off
+                       r == DecN(d.st, c.v.v, [c.ds EXCEPT !.cur = pos, !.hi = IF pos > c.ds.hi /\ pos <= NBytes(ds) THEN pos ELSE c.ds.hi], <<>>) IN
                    R([r.ds EXCEPT !.org = ds.org], r.v)
       [] d.k = "eopfield" ->
            LET r == DecToEnd(d.st, [ds EXCEPT !.org = ds.cur], <<>>) IN R([r.ds EXCEPT !.org = ds.org], r.v)
